@@ -38,7 +38,7 @@ def jail():
 
 
 def examples(tier):
-    return 1400 if tier == "quick" else 20000
+    return 8400 if tier == "quick" else 110000
 
 
 @st.composite
